@@ -47,8 +47,10 @@ def literal_digits(text: str) -> int:
 
 
 def stated_digits(src: str) -> dict:
-    """name -> digits of the shortest numeric literal in the value expression of `name = Quantity(expr, ...)`
-    (exponents of ** are not values); 9 if the expression has no literal."""
+    """name -> digits to which the library states the value in `name = Quantity(expr, ...)`: the shortest
+    floating-point literal of the expression (integer literals next to a float literal are exact factors such as
+    2 or 1 + ..; exponents of ** are not values); the shortest integer literal if there is no float literal
+    (298 * kelvin); 9 if the expression has no literal."""
     tree = ast.parse(src)
     out = {}
 
@@ -65,7 +67,9 @@ def stated_digits(src: str) -> dict:
     for stmt in tree.body:
         if not (isinstance(stmt, ast.Assign) and isinstance(stmt.value, ast.Call) and stmt.value.args):
             continue
-        digits = [literal_digits(ast.get_source_segment(src, n)) for n in literals(stmt.value.args[0])]
+        lits = list(literals(stmt.value.args[0]))
+        floats = [n for n in lits if isinstance(n.value, float)]
+        digits = [literal_digits(ast.get_source_segment(src, n)) for n in (floats or lits)]
         for t in stmt.targets:
             if isinstance(t, ast.Name):
                 out[t.id] = min(min(digits), 9) if digits else 9
